@@ -1,8 +1,8 @@
 (* C10 — the solver reads an instance file as the instance the file denotes.
-   The theorem is for files rendered with single blanks between tokens and "\n" line ends; arbitrary runs of
-   blanks/tabs, leading zeros, missing final newline and "\r\n" are covered by the correspondence R_import only
-   (partial w.r.t. whitespace). *)
-From MP Require Import Text.Render Proofs.ImportProofs.
+   C10_import: single-blank rendering; C10_import_any_layout: ANY run of blanks/tabs between tokens, leading and
+   trailing blanks on every line, any trailing block of lines, final newline present or not.  Leading zeros on
+   numbers and "\r\n" line ends are covered by the correspondence R_import only. *)
+From MP Require Import Text.Render Text.RenderWs Proofs.ImportProofs Proofs.ImportWsProofs.
 Local Open Scope list_scope. Open Scope Z_scope.
 
 (* for every abstract file of the documented format (any counts, list lengths, tie groups anywhere, empty
@@ -15,6 +15,17 @@ Theorem C10_import : forall (na : Z) (twopl : bool) (A : file_ast) (trailer : li
   import_model (render na A trailer) na twopl = Ok (denote na twopl A).
 Proof. exact import_render. Qed.
 Print Assumptions C10_import.
+
+(* arbitrary inter-token whitespace: every line laid out with its own non-empty blank/tab separators, optional
+   leading and trailing blanks; optional trailer; optional final newline *)
+Theorem C10_import_any_layout : forall na twopl A lys trailer final_nl,
+  wf_ast na twopl A = true ->
+  length lys = length (ast_lines na A) ->
+  (forall i ly toks, nth_error lys i = Some ly -> nth_error (ast_lines na A) i = Some toks ->
+                     layout_ok ly (length toks) = true) ->
+  import_model (render_ws na A lys trailer final_nl) na twopl = Ok (denote na twopl A).
+Proof. exact import_render_ws. Qed.
+Print Assumptions C10_import_any_layout.
 
 Example C10_example :
   let A := mkAst 2 2 2 [[[1;2]]; [[2];[1]]] [(0,1,1);(0,2,1)] [] [(0,1,2,[[1];[2]]); (0,0,1,[])] in
